@@ -1479,6 +1479,9 @@ class QueryBuilder(Selectable, Term):  # type:ignore[misc]
         has_reference_to_foreign_table = self._foreign_table
         has_update_from = self._update_table and self._from
 
+        # The flags of the embedding position (print my alias, I am a sub-criterion) concern this query as a whole,
+        # not the clauses inside it
+        with_alias = ctx.with_alias
         ctx = ctx.copy(
             with_namespace=any(
                 [
@@ -1488,7 +1491,9 @@ class QueryBuilder(Selectable, Term):  # type:ignore[misc]
                     has_reference_to_foreign_table,
                     has_update_from,
                 ]
-            )
+            ),
+            with_alias=False,
+            subcriterion=False,
         )
 
         if self._update_table:
@@ -1588,7 +1593,7 @@ class QueryBuilder(Selectable, Term):  # type:ignore[misc]
         if self._on_conflict:
             querystring += self._on_conflict_sql(ctx)
             querystring += self._on_conflict_action_sql(ctx)
-        if ctx.with_alias:
+        if with_alias:
             return format_alias_sql(querystring, self.alias, ctx)
 
         return querystring
